@@ -417,16 +417,24 @@ COQ_TABLE_CHECKS = [
 ]
 
 
-def coq_table_offenders(pid: str):
-    """Evaluate every table check's offender list inside coqc.  Returns (dict name -> list, counts, error)."""
-    import re
-    d = C.SCRATCH / f"tables_{pid}"
+C16_CHECKS = {"classes_plain", "mul_closed", "div_closed", "sidict", "sisig_agrees", "mul_table", "div_table",
+              "base_factor", "dimensionless", "siunits"}
+C17_CHECKS = {"base_factor", "units_wf", "described", "display", "alias_display", "alias_descr", "factor_ratio",
+              "all_names", "compound", "classes_plain"}
+
+
+def coq_table_offenders(pid: str, names=None):
+    """Evaluate the offender list of every table check in `names` inside coqc (against the freshly
+    built Gen_Tables.vo).  Returns (dict name -> list, per-class entry counts, error)."""
+    d = C.SCRATCH / f"tables_{pid}" / f"run{os.getpid()}"
     d.mkdir(parents=True, exist_ok=True)
     f = d / "offenders.v"
+    checks = [c for c in COQ_TABLE_CHECKS if names is None or c[0] in names]
+    need_compound = any(c[0] == "compound" for c in checks)
     lines = ["From Coq Require Import ZArith List String.",
-             "From PV Require Import Units.Tables Units.Gen_Tables Units.Gen_Compound.",
+             "From PV Require Import Units.Tables Units.Gen_Tables" + (" Units.Gen_Compound." if need_compound else "."),
              "Import ListNotations."]
-    for name, expr, kind in COQ_TABLE_CHECKS:
+    for name, expr, kind in checks:
         if kind == "pairs":
             lines.append(f"Eval vm_compute in (flat_map (fun p : nat * nat => [fst p; snd p]) ({expr})).")
         else:
@@ -434,13 +442,15 @@ def coq_table_offenders(pid: str):
     lines.append("Eval vm_compute in (flat_map class_counts gen_classes).")
     f.write_text("\n".join(lines) + "\n")
     rc, out = C.coqc_file(f, timeout=300)
+    import shutil
+    shutil.rmtree(d, ignore_errors=True)
     if rc != 0:
         return None, None, out[-1500:]
     lists = C.parse_nat_lists(out)
-    if len(lists) != len(COQ_TABLE_CHECKS) + 1:
+    if len(lists) != len(checks) + 1:
         return None, None, "unexpected coqc output: " + out[-800:]
     res = {}
-    for (name, _, kind), lst in zip(COQ_TABLE_CHECKS, lists):
+    for (name, _, kind), lst in zip(checks, lists):
         res[name] = [tuple(lst[i:i + 2]) for i in range(0, len(lst), 2)] if kind == "pairs" else list(lst)
     flat = lists[-1]
     counts = [flat[i:i + 6] for i in range(0, len(flat), 6)]
